@@ -215,10 +215,17 @@ def run_lemma_task(task):
         excluded = set()
         queries = 0
         t1 = time.time()
+        budget = task.get("budget", 3 * task["timeout"])        # wall budget of the whole task (encode + all queries)
+
+        def left():
+            rem = budget - (time.time() - t0)
+            if rem < 2:
+                raise Timeout("task budget of %d s exhausted" % budget)
+            return int(min(task["timeout"], rem))
         while True:
             live = [(lab, l) for lab, l in items if lab not in excluded]
             bad = c.orl([-l for _, l in live])
-            r, mdl = terms.solve(c, goal.assume + [bad], solver=task["solver"], timeout_s=task["timeout"])
+            r, mdl = terms.solve(c, goal.assume + [bad], solver=task["solver"], timeout_s=left())
             queries += 1
             if r == "unsat":
                 break
@@ -231,13 +238,13 @@ def run_lemma_task(task):
             if queries > 12:
                 break
         # vacuity: the assumptions are satisfiable, and every cover goal is reachable
-        r0, _ = terms.solve(c, goal.assume, solver=task["solver"], timeout_s=task["timeout"])
+        r0, _ = terms.solve(c, goal.assume, solver=task["solver"], timeout_s=left())
         queries += 1
         if r0 != "sat":
             raise Inconclusive("vacuous lemma: assumptions unsatisfiable")
         res["cover"] = {}
         for lab, l in goal.cover:
-            rc, _ = terms.solve(c, goal.assume + [l], solver=task["solver"], timeout_s=task["timeout"])
+            rc, _ = terms.solve(c, goal.assume + [l], solver=task["solver"], timeout_s=left())
             queries += 1
             res["cover"][lab] = (rc == "sat")
         res["queries"] = queries
